@@ -6,6 +6,7 @@
 #include "bgh.cpp"
 #undef main
 #include <atomic>
+#include <clocale>
 #include <random>
 #include <thread>
 
@@ -81,10 +82,16 @@ int main(int argc, char **argv) {
         slots.push_back(std::move(s));
         sizes.push_back(n);
     }
-    std::vector<std::string> ref;
-    for (size_t k = 0; k < slots.size(); ++k) ref.push_back(transcript(slots[k].get(), sizes[k]));
+    // No single-threaded warm-up: the threads make the FIRST calls of every const entry point (a lazily
+    // initialised static or cache would race here); the single-threaded reference is computed afterwards.
+    // A locale other than "C" is installed first, so that code which switches the process locale and
+    // restores it is visible (the final locale is compared) instead of being a no-op.
+    const char *want = setlocale(LC_ALL, "C.UTF-8");
+    std::string loc0 = setlocale(LC_ALL, nullptr);
+    (void)want;
     std::atomic<int> mismatches(0);
     std::atomic<long> calls(0);
+    std::vector<std::vector<std::pair<size_t, std::string>>> got(nthreads);
     std::vector<std::thread> ts;
     for (int t = 0; t < nthreads; ++t)
         ts.emplace_back([&, t] {
@@ -92,14 +99,23 @@ int main(int argc, char **argv) {
             for (int r = 0; r < rounds; ++r)
                 for (size_t k = 0; k < slots.size(); ++k) {
                     size_t idx = (k + t) % slots.size();
-                    std::string got = transcript(slots[idx].get(), sizes[idx]);
+                    got[t].emplace_back(idx, transcript(slots[idx].get(), sizes[idx]));
                     ++calls;
-                    if (got != ref[idx]) {
-                        if (mismatches++ == 0) std::cerr << "MISMATCH thread " << t << " graph " << specs[idx].cls << "/" << specs[idx].kind << "\n";
-                    }
                 }
         });
     for (auto &t : ts) t.join();
+    std::vector<std::string> ref;
+    for (size_t k = 0; k < slots.size(); ++k) ref.push_back(transcript(slots[k].get(), sizes[k]));
+    for (int t = 0; t < nthreads; ++t)
+        for (auto &pr : got[t])
+            if (pr.second != ref[pr.first]) {
+                if (mismatches++ == 0) std::cerr << "MISMATCH thread " << t << " graph " << specs[pr.first].cls << "/" << specs[pr.first].kind << "\n";
+            }
+    std::string loc1 = setlocale(LC_ALL, nullptr);
+    if (loc1 != loc0) {
+        std::cerr << "LOCALE CHANGED by const operations: " << loc0 << " -> " << loc1 << "\n";
+        ++mismatches;
+    }
     size_t bytes = 0;
     for (auto &r : ref) bytes += r.size();
     std::cout << "readers seed=" << seed << " threads=" << nthreads << " rounds=" << rounds << " graphs=" << slots.size()
